@@ -44,7 +44,7 @@ func (h HReg) methods() []string {
 		return []string{"GET"}
 	case strings.HasPrefix(h.Via, "route:"):
 		return model.ExpandMethod(strings.TrimPrefix(h.Via, "route:"))
-	case h.Via == "routes-list", h.Via == "routes-args":
+	case h.Via == "routes-list", h.Via == "routes-args", h.Via == "routes-lower":
 		return []string{"GET", "POST"}
 	case h.Via == "any":
 		return model.Methods
@@ -106,6 +106,8 @@ func checkCase(c Case) (out evid.Outcome) {
 				r = f.Routes(g.R, "GET,POST", h)
 			case g.Via == "routes-args":
 				r = f.Routes(g.R, "GET", "POST", h)
+			case g.Via == "routes-lower":
+				r = f.Routes(g.R, "get, Post", h)
 			case g.Via == "any":
 				r = f.Any(g.R, h)
 			}
@@ -234,7 +236,7 @@ func genHeaders(t *rapid.T) []string {
 }
 
 func genCase(t *rapid.T) Case {
-	vias := []string{"get", "get", "route:POST", "routes-list", "routes-args", "any", "route:*", "route:get"}
+	vias := []string{"get", "get", "route:POST", "routes-list", "routes-args", "routes-lower", "any", "route:*", "route:get"}
 	pool := gen.SegPoolW(t, 5, false, [3]int{50, 70, 88})
 	n := rapid.IntRange(1, 6).Draw(t, "nroutes")
 	g := model.NewRegistrar()
